@@ -227,6 +227,35 @@ var c08SiblingFamilies = [][]string{
 	{"/f/index", "/f/help", "/f/{name}", "/f/{id: /[0-9]+/}", "/f/{path: **}", "/f/{other: **}"},
 }
 
+// c08StillReachable: every registered route is reachable by its own instances subject only to priority - also
+// after further registrations and refused attempts.
+func c08StillReachable(m *ref.Matcher, tree route.Tree, trie *ref.Trie) (bad, key string) {
+	for _, rt := range trie.Routes {
+		for fi, form := range rt.Forms() {
+			inst, ok := m.Instance(form)
+			if !ok {
+				continue
+			}
+			raw := "/" + strings.Join(inst, "/")
+			got, _, found, mpan := safeMatch(tree, raw, nil)
+			if mpan != nil {
+				return fmt.Sprintf("serving the instance %q of the registered route %q panicked: %v", raw, rt.Text(), mpan), "instance-panic"
+			}
+			want := trie.Match(m, ref.SplitPath(raw), nil)
+			if !want.Found {
+				continue
+			}
+			if !found {
+				return fmt.Sprintf("the registered route %q is no longer reachable: its instance %q (form %d) is not found", rt.Text(), raw, fi), "unreachable-after-later-registrations"
+			}
+			if got.Route() != trie.Routes[want.Route].Text() {
+				return fmt.Sprintf("instance %q of the registered route %q dispatched to %q, priority picks %q", raw, rt.Text(), got.Route(), trie.Routes[want.Route].Text()), "instance-wrong-winner"
+			}
+		}
+	}
+	return "", ""
+}
+
 func c08Siblings(r *core.Run, p *route.Parser) {
 	perms := func(n int) [][]int {
 		var out [][]int
@@ -245,7 +274,7 @@ func c08Siblings(r *core.Run, p *route.Parser) {
 		rec(nil, 0)
 		return out
 	}(5)
-	r.Bounds["sibling_insertion_histories"] = fmt.Sprintf("%d families x %d orders of five siblings, each followed by every duplicate and a second match-all", len(c08SiblingFamilies), len(perms))
+	r.Bounds["sibling_insertion_histories"] = fmt.Sprintf("%d families x %d orders of five siblings, each followed (every second time after two attempts refused below a literal of their own that sorts first, with every registered route still reachable) by every duplicate and a second match-all", len(c08SiblingFamilies), len(perms))
 	type job struct {
 		fam  int
 		perm []int
@@ -295,6 +324,30 @@ func c08Siblings(r *core.Run, p *route.Parser) {
 				}
 				if !ok {
 					break
+				}
+				if ti%2 == 1 {
+					// attempts that are refused two segments below a literal of their own among the siblings (and at the root):
+					// each it leaves the siblings as they were, in their order
+					top := "/" + strings.SplitN(fam[0], "/", 3)[1] // the segment the siblings hang below
+					for _, refusedText := range []string{top + "/0/{i}/{i}", top + "/~/{m: **}/{n: **}/z", "/0/{i}/{i}"} {
+						l.Evals++
+						l.Transitions++
+						if v, bad, key := c08Step(m, tree, trie, mk(refusedText)); bad != "" || v == "accept" {
+							l.Class("mismatch")
+							l.Violate("tree/"+key+"/sibling-insertion", bad+fmt.Sprintf(" [registered %q, candidate %q, verdict %s]", hist, refusedText, v), c08Case{Registered: append([]string{}, hist...), Candidate: refusedText})
+							ok = false
+							break
+						}
+						hist = append(hist, refusedText+" (rejected)")
+					}
+					if bad, key := c08StillReachable(m, tree, trie); ok && bad != "" {
+						l.Class("mismatch")
+						l.Violate("tree/"+key+"/sibling-insertion", bad+fmt.Sprintf(" [history %q]", hist), c08Case{Registered: append([]string{}, hist...), Candidate: hist[0]})
+						ok = false
+					}
+					if !ok {
+						break
+					}
 				}
 				l.States++
 				l.Evals++
@@ -845,6 +898,9 @@ func c08Replay(raw json.RawMessage) (bool, string) {
 		if bad != "" || (v == "accept") == rejected {
 			return false, "history prefix does not behave as recorded"
 		}
+	}
+	if bad, _ := c08StillReachable(m, tree, trie); bad != "" {
+		return true, bad
 	}
 	_, bad, _ := c08Step(m, tree, trie, mk(c.Candidate))
 	return bad != "", bad
